@@ -161,7 +161,10 @@ let () =
 
     (* ------------------------------------------------------------------ property oracles *)
     let show (k, d) = k ^ ":" ^ d in
-    if res = ("panic", "crash") then
+    if res = ("panic", "hang") then
+      propfail id (Printf.sprintf "the run with hibernation (distance %d, threshold %d, disk %d, fault %s) does not return within the time limit of the harness (the largest run of the family takes well under a minute)"
+                     (geti "dist") (geti "thr") (geti "disk") fault)
+    else if res = ("panic", "crash") then
       (* written by the supervisor of the harness: the process died during this run *)
       propfail id (Printf.sprintf "the process dies during the run with hibernation (distance %d, threshold %d, disk %d, fault %s): a panic in a goroutine started by Hibernate / Boot, which the caller of Run cannot recover (a run without hibernation of the same history was not what crashed)"
                      (geti "dist") (geti "thr") (geti "disk") fault)
@@ -241,7 +244,7 @@ let () =
 
     (* ------------------------------------------------------------------ fine correspondence *)
     if wrapped && lc && max_file > fine_limit then count "fine_correspondence_skipped_large_file";
-    if wrapped && lc && max_file <= fine_limit && res <> ("panic", "crash") then begin
+    if wrapped && lc && max_file <= fine_limit && res <> ("panic", "crash") && res <> ("panic", "hang") then begin
       let calls = List.filter_map (fun e -> match tag e with "hib" | "boot" -> Some (call_of_sx e) | _ -> None) events in
       (* oracle: one entry per call that touches the disk, in call order *)
       let entries = List.filter_map (fun cl ->
